@@ -149,9 +149,15 @@ namespace l2cap {
     template < typename ConnectionData >
     void signaling_channel< Options... >::l2cap_input( const std::uint8_t* input, std::size_t in_size, std::uint8_t* output, std::size_t& out_size, ConnectionData& )
     {
+        static constexpr std::size_t response_size = 6;
         const std::uint8_t code = in_size > 0 ? input[ 0 ] : 0;
 
-        if ( code == connection_parameter_update_response_code && pending_status_ == transmitted )
+        // only a well formed response to the outstanding request completes it
+        if ( code == connection_parameter_update_response_code && pending_status_ == transmitted
+          && in_size == response_size
+          && input[ 1 ] == identifier_
+          && input[ 2 ] == response_size - 4
+          && input[ 3 ] == 0 )
         {
             pending_status_ = idle;
             identifier_ = static_cast< std::uint8_t >( identifier_ + 1 );
